@@ -250,6 +250,59 @@ theorem prep_col_rel (N L b K sz : Nat) (hb : b ≤ 62) (c : Col) (hc : ColWF N 
     have := Int.mul_ediv_add_emod last D
     linarith
 
+/-- rounding down to a multiple of `D` stays within `[-2^b, 2^b]` when `D ∣ 2^b` -/
+theorem mask_abs (b j : Nat) (hj : j ≤ b) (x : Int) (hx : |x| ≤ 2 ^ b) : |x - x % 2 ^ j| ≤ 2 ^ b := by
+  set D : Int := 2 ^ j with hD
+  have hDpos : 0 < D := by positivity
+  obtain ⟨m, hm⟩ : ∃ m : Int, (2 : Int) ^ b = D * m := ⟨2 ^ (b - j), by rw [hD, ← pow_add]; congr 1; omega⟩
+  have h1 : x - x % D = D * (x / D) := by have := Int.mul_ediv_add_emod x D; linarith
+  have hr0 : 0 ≤ x % D := Int.emod_nonneg _ hDpos.ne'
+  have hr1 : x % D < D := Int.emod_lt_of_pos _ hDpos
+  have hx' := abs_le.mp hx
+  rw [abs_le]
+  constructor
+  · rw [h1, hm]
+    by_contra hc
+    push Not at hc
+    have hq : x / D < -m := by
+      by_contra hq; push Not at hq
+      have := mul_le_mul_of_nonneg_left hq hDpos.le
+      linarith
+    have hq' : x / D + 1 ≤ -m := by omega
+    have := mul_le_mul_of_nonneg_left hq' hDpos.le
+    have h2 : x < D * (x / D) + D := by linarith
+    nlinarith
+  · linarith
+
+/-- digits of a prepared column -/
+theorem prep_digits (N L b K : Nat) (hb : b ≤ 62) (c : Col) (hc : c.length = L) (hL : 1 ≤ L) (hl : LimbsN N c)
+    (hK1 : b * (L - 1) < K) (hK2 : K ≤ b * L) (hd : ∀ l ∈ c, ∀ x ∈ l, |x| ≤ 2 ^ b) :
+    ∀ l ∈ Hal.cnvPrepareCol N L (msbMaskBottomLimb b K) c, ∀ x ∈ l, |x| ≤ 2 ^ b := by
+  have hb0 : 0 < b := by
+    rcases Nat.eq_zero_or_pos b with h | h
+    · subst h; simp at hK2; omega
+    · exact h
+  have hpow : (2 : Int) ^ b < 2 ^ 63 := by
+    have : (2 : Int) ^ b ≤ 2 ^ 62 := pow_le_pow_right₀ (by norm_num) hb
+    norm_num at this ⊢; omega
+  rw [prep_eq N L _ c hc hL hl]
+  intro l hl' x hx
+  rcases List.mem_append.mp hl' with h | h
+  · exact hd l (List.mem_of_mem_dropLast h) x hx
+  · simp only [List.mem_singleton] at h
+    subst h
+    obtain ⟨y, hy, rfl⟩ := List.mem_map.mp hx
+    have hmem : c.getD (L - 1) (zeroP N) ∈ c := by
+      rw [List.getD_eq_getElem?_getD, List.getElem?_eq_getElem (by omega)]; exact List.getElem_mem _
+    have hyb := hd _ hmem y hy
+    have hyr := abs_le.mp hyb
+    rw [C05.mask_keeps_top_bits b K (by omega) y (by linarith [hyr.1]) (by linarith [hyr.2])]
+    obtain ⟨_, he1⟩ := mask_exp b K L hb0 hK1 hK2 hL
+    split
+    · exact hyb
+    · next h0 =>
+      exact mask_abs b _ (by omega) y hyb
+
 /-- admissible operand of a product: well formed, digits `≤ 2^b − 1` (what every normalisation leaves), `1 ≤ b ≤ 62`,
 `effective_k ≥ 1` and within the limbs present -/
 structure MaskAdm (N b r K : Nat) (g : GLWE) : Prop where
